@@ -216,6 +216,46 @@ Apply(mode, ps) ==
   /\ obs' = [a |-> "apply", arg |-> [mode |-> mode], exp |-> [parts |-> ProjL(ps)]]
   /\ UNCHANGED <<data, lo, hi, ranged>>
 
+(* C++ polyline::set for one dimension mapped to x unchanged, then the walk *)
+(* over the parts: pts[i] = coordinates of part i's points(), ends[i] =     *)
+(* <<known, 65536 * first x, known, 65536 * last x>> of its line().         *)
+(* Only parts up to the last one with a drawn line are visited.            *)
+Visited(ps) ==
+  LET S == {k \in 0..Len(ps) : SumUsr(FirstN(ps, k)) = SumUsr(ps)} IN
+  CHOOSE k \in S : \A j \in S : k <= j
+DrawnVals(p) ==
+  LET a == p.s + 1 + (IF p.cut # 0 THEN 1 ELSE 0)
+      b == p.s + p.usr - (IF p.trim # 0 THEN 1 ELSE 0)
+  IN [k \in 1..(b - a + 1) |-> data[a + k - 1]]
+LineEnds(p) ==
+  IF p.usr = 0 THEN <<0, 0, 0, 0>>
+  ELSE LET f == p.s + 1  e == p.s + p.usr IN
+       <<1, IF p.cut # 0 THEN 65536 * data[f] + p.cut * (data[f + 1] - data[f]) ELSE 65536 * data[f],
+         1, IF p.trim # 0 THEN 65536 * data[e] + p.trim * (data[e - 1] - data[e]) ELSE 65536 * data[e]>>
+PolyPts(ps)  == [i \in 1..Visited(ps) |-> DrawnVals(ps[i])]
+PolyEnds(ps) == [i \in 1..Visited(ps) |-> LineEnds(ps[i])]
+
+Poly(ret, ps, pts, ends) ==
+  /\ pos = 0 /\ parts = <<>>
+  /\ parts' = ps
+  /\ pos' = SumRaw(ps)
+  /\ obs' = [a |-> "poly", arg |-> [x |-> 0],
+             exp |-> [ret |-> ret, parts |-> ProjL(ps), pts |-> pts, ends |-> ends, full |-> 1]]
+  /\ UNCHANGED <<data, lo, hi, ranged>>
+
+(* Tier 1 for the end points of a drawn line: a cut/trimmed end lies on the *)
+(* range boundary to the precision of one code of its segment              *)
+EndNear(x65536, o, i) ==
+  LET bound == IF o < lo THEN lo ELSE hi
+      d == x65536 - 65536 * bound
+      w == IF i > o THEN i - o ELSE o - i
+  IN d <= w /\ -d <= w
+EndsOK(p, e) ==
+  /\ (p.usr > 0 /\ p.cut # 0 /\ e[1] = 1) => EndNear(e[2], data[p.s + 1], data[p.s + 2])
+  /\ (p.usr > 0 /\ p.trim # 0 /\ e[3] = 1) => EndNear(e[4], data[p.s + p.usr], data[p.s + p.usr - 1])
+  /\ (p.usr > 0 /\ p.cut = 0 /\ e[1] = 1) => e[2] = 65536 * data[p.s + 1]
+  /\ (p.usr > 0 /\ p.trim = 0 /\ e[3] = 1) => e[4] = 65536 * data[p.s + p.usr]
+
 (* mpt_linepart_code / mpt_linepart_real on the fraction a/b               *)
 EncodeNums(b) == IF b <= 16 THEN -1..(b + 1)
                  ELSE {-1, 0, 1, 2, 3, b \div 65536, b \div 65536 + 1, b \div 3, b \div 2, b - 2, b - 1, b, b + 1}
@@ -245,6 +285,9 @@ Next ==
         /\ NextPart(n, PartOf(Offered(n)))
   \/ DoJoin
   \/ \E mode \in {"fresh", "set"} : Len(data) > 0 /\ Apply(mode, ApplyResult(mode))
+  \/ /\ Len(data) > 0
+     /\ LET ps == ApplyResult("set") IN
+        Poly(IF SumUsr(ps) > 0 THEN "ok" ELSE "refused", ps, PolyPts(ps), PolyEnds(ps))
   \/ Len(data) = 0 /\ ranged /\ \E b \in CodeDen : \E a \in EncodeNums(b) : Encode(a, b, EncodeRet(a, b), EncodeCode(a, b))
 
 Spec == Init /\ [][Next]_vars
@@ -258,7 +301,14 @@ TypeOK ==
 
 PartsOK    == \A i \in 1..Len(parts) : PartOK(parts[i])
 Partition  == Contiguous(parts, pos)        \* raws add up to the points consumed
-Complete   == obs.a = "apply" => pos = Len(data)
+Complete   == obs.a \in {"apply", "poly"} => pos = Len(data)
+PolyOK     == obs.a = "poly" =>
+                /\ Len(obs.exp.pts) = Len(obs.exp.ends) /\ Len(obs.exp.pts) <= Len(parts)
+                /\ \A i \in 1..Len(parts) : parts[i].usr > 0 => i <= Len(obs.exp.pts)
+                /\ \A i \in 1..Len(obs.exp.pts) :
+                     /\ obs.exp.pts[i] = DrawnVals(parts[i])
+                     /\ \A k \in 1..Len(obs.exp.pts[i]) : InR(obs.exp.pts[i][k])
+                     /\ EndsOK(parts[i], obs.exp.ends[i])
 EncodeOK   == obs.a = "encode" /\ obs.exp.ret = "ok" =>
                 /\ CodeNear(obs.exp.code, obs.arg.a, obs.arg.b)
                 /\ obs.arg.a > 0 => obs.exp.code > 0
